@@ -14,7 +14,9 @@ Inductive prov := PInit | PUninit | PSpFresh | PIdCached | PIdFresh.
 Inductive dest := DAbsent | DInit | DHandle | DEmptyDir.
 Inductive route :=
 | REdit (p : list pstep) (a : eact) | RAssign (sp : json) | RUpdate (u : json) (ov : bool) | RMove | RClone
-| RMoveEdit (p : list pstep) (a : eact).   (* move to the other project, then change the state point through the SAME handle *)
+| RMoveEdit (p : list pstep) (a : eact)    (* move to the other project, then change the state point through the SAME handle *)
+| RCopyMove (p : list pstep) (a : eact).   (* move THROUGH THE FIRST SHALLOW COPY, then change the state point through the handle
+                                              that was left behind (it now denotes a job of the old project that does not exist) *)
 
 Record payload := mkPay { p_doc : json; p_files : list (path * list N) }.
 
@@ -41,7 +43,8 @@ Definition PA : path := [[65%N]].
 Definition PB : path := [[66%N]].
 
 Definition is_uninit (p : prov) : bool := match p with PUninit => true | _ => false end.
-Definition rekey_route (r : route) : bool := match r with RMove | RClone | RMoveEdit _ _ => false | _ => true end.
+Definition rekey_route (r : route) : bool := match r with RMove | RClone | RMoveEdit _ _ | RCopyMove _ _ => false | _ => true end.
+Definition copymove_route (r : route) : bool := match r with RCopyMove _ _ => true | _ => false end.
 
 (* ------------------------------------------------------------------ specification-level meaning *)
 (* update_statepoint without overwrite: a key that exists with a different (Python !=) value *)
@@ -57,7 +60,7 @@ Definition spec_new (r : route) (old : json) : option json :=
                Some (JObj (fold_left (fun acc kv => if has_key (fst kv) acc then acc else acc ++ [kv]) us kvs))
            | _, _ => Some old
            end
-  | RMove | RClone => Some old
+  | RMove | RClone | RCopyMove _ _ => Some old
   | RMoveEdit p a => edit_sp p a old
   end.
 
@@ -96,6 +99,42 @@ Section Script.
 
   Definition new_sp (i : input_C04) : json :=
     match spec_new (i_route i) (i_old i) with Some v => v | None => i_old i end.
+
+  (* does the handle own a _StatePointDict before the operation *)
+  (* (init, statepoint access, and - since fix 0894ce6 - being pickled or shallow-copied instantiate it) *)
+  Definition has_cell (i : input_C04) : bool :=
+    match i_prov i with PInit => true | _ => i_access i || i_pickle i || Nat.ltb 0 (i_shallow i) end.
+
+  (* what SyncedDict._update is applied to, and with what *)
+  Definition merge_args (i : input_C04) : option (json * json) :=
+    match i_route i with
+    | RAssign sp => Some (if has_cell i then i_old i else JObj [], sp)
+    | RUpdate u ov => if negb ov && update_conflict (i_old i) u then None else Some (i_old i, dict_update (i_old i) u)
+    | _ => None
+    end.
+
+  (* tag 3: _update keeps values that compare == in Python (1 / 1.0 / True) and ignores None over a container *)
+  Definition class_drop (i : input_C04) : bool :=
+    match merge_args i with
+    | Some (ex, nw) =>
+        negb (json_same (snd (upd_root ex nw)) nw) &&
+        match i_route i with
+        | RUpdate u false => match spec_new (i_route i) (i_old i) with
+                             | Some v => negb (json_same (snd (upd_root ex nw)) v) | None => false end
+        | _ => true
+        end
+    | None => false
+    end.
+
+  (* After a re-key the new id is opened BY ID on the Project object of the operating handle and the new handle's
+     statepoint() / cached_statepoint are read (tags 43-45): a handle obtained by id is served from the Project's
+     id -> state point cache, which the setter / the re-initialisation fill.  (The harness mutates the mapping it handed
+     to the setter / update_statepoint in place right after the call - the model cannot alias.)  The probe is scripted
+     only where a job is expected under that id: the source is initialised, the route's meaning is defined, and the input
+     is not in the class of open finding 3 (there the job stays where it was, and nothing can be opened). *)
+  Definition byid_expected (i : input_C04) : bool :=
+    rekey_route (i_route i) && negb (is_uninit (i_prov i)) && negb (class_drop i) &&
+    match spec_new (i_route i) (i_old i) with Some _ => true | None => false end.
 
   Definition script_C04 (i : input_C04) : list (nat * op) * roles :=
     let old := i_old i in
@@ -141,9 +180,14 @@ Section Script.
       | RAssign sp => OAssign hm sp
       | RUpdate u ov => OUpdateSp hm u ov
       | RMove | RMoveEdit _ _ => OMove hm 1
+      | RCopyMove _ _ => OMove (match c1 with Some c => c | None => hm end) 1
       | RClone => OClone 1 hm
       end in
-    let follow := match i_route i with RMoveEdit p a => [(4, OEdit hm p a)] | _ => [] end in
+    let follow := match i_route i, c1 with
+                  | RMoveEdit p a, _ => [(4, OEdit hm p a)]
+                  | RCopyMove p a, Some _ => [(4, OEdit hm p a)]
+                  | _, _ => []
+                  end in
     let cl := if clone_expected i then Some nh else None in
     let o9 := obs_ops 0 (Some hm) ++ obs_ops 1 c1 ++ obs_ops 2 c2 ++ obs_ops 3 dp ++ obs_ops 4 pk ++ obs_ops 5 cl
               ++ obs_ops 6 tw in
@@ -157,12 +201,15 @@ Section Script.
                end in
     let o10 := [(0, ONewSession PA); (40, OIds ns); (0, ONewSession PB); (41, OIds (S ns))] in
     (* documents: of the handle, of the clone, and (for re-key routes, where they must follow) of the shallow copies *)
-    let o11 := doc_ops 0 (Some hm)
+    (* (after a move through a copy the handle left behind denotes a job that does not exist: reading its document
+        would create it, so only the mover's document is read) *)
+    let o11 := (match i_route i, c1 with RCopyMove _ _, Some _ => doc_ops 1 c1 | _, _ => doc_ops 0 (Some hm) end)
                ++ (if rekey_route (i_route i) then doc_ops 1 c1 ++ doc_ops 2 c2 else [])
                ++ doc_ops 5 cl in
+    let o16 := if byid_expected i then [(43, OOpenId sid (calc_id frepr nsp)); (44, OSp nh); (45, OCached nh)] else [] in
     let o13 := init_ops dp ++ init_ops pk in
     (o1 ++ o2 ++ o3 ++ o4 ++ o5a ++ o5b ++ o5c ++ o6 ++ [(1, OTree); (2, main)] ++ follow ++ [(3, OTree)] ++ o9 ++ o10 ++ o11
-        ++ [(60, OTree)] ++ o13 ++ [(70, OTree)] ++ o15 ++ o14,
+        ++ [(60, OTree)] ++ o13 ++ [(70, OTree)] ++ o15 ++ o16 ++ o14,
      mkRoles hm c1 c2 dp pk cl ns (S ns) tw).
 
   (* ------------------------------------------------------------------ reading the observations *)
@@ -272,6 +319,10 @@ Section Script.
       | Some _, _ :: _ => tree_same_except [bws ++ [oid]] final (tree_at 73 [] sc outs)
       | _, _ => true
       end in
+    (* a handle opened by id on the operating handle's Project after the re-key describes the new job *)
+    let byid_ok (nid : str) (nsp : json) :=
+      negb (byid_expected i) ||
+      (match at_ 43 with Some (VStr x) => str_eqb x nid | _ => false end && is_json (at_ 44) nsp && is_json (at_ 45) nsp) in
     let common := pre_ok && twin_ok && clone_indep && ids_ok && independent 3 && independent 4 && indep_usable
                   && (uninit || tree_same_except (if m_shallow m then [src] else []) post post2) in
     match i_route i with
@@ -305,6 +356,21 @@ Section Script.
                  | _ => true
                  end
         end
+    | RCopyMove p a =>
+        (* move through the first shallow copy, then an edit through the handle left behind: the moved job stays in B
+           under its id with everything, the mover keeps describing it; nothing else appears in either project.  (What
+           the handles left behind show is not claimed; the edit may also fail.) *)
+        let dst := bws ++ [oid] in
+        let kmv := match r_c1 ro with Some _ => 1 | None => 0 end in
+        if uninit then is_exn (at_ 2) ERuntimeError && unchanged && common
+        else match i_dest i with
+             | DAbsent =>
+                 is_unit (at_ 2) && none_under src post && isdir_t post dst
+                 && tree_same_except [] (rel_tree src pre) (rel_tree dst post)
+                 && tree_same_except [src; dst] pre post
+                 && shows kmv true oid dst old && doc_is kmv && common
+             | _ => true
+             end
     | RClone =>
         let dst := bws ++ [oid] in
         if uninit then is_exn (at_ 2) EValueError && unchanged && common
@@ -327,7 +393,7 @@ Section Script.
             let nid := calc_id frepr nsp in
             let dst := aws ++ [nid] in
             if str_eqb nid oid then
-              is_unit (at_ 2) && unchanged && shows 0 false oid src nsp && common
+              is_unit (at_ 2) && unchanged && shows 0 false oid src nsp && byid_ok oid nsp && common
             else if uninit then
               (* nothing on disk to carry: the handles simply follow *)
               is_unit (at_ 2) && unchanged
@@ -342,7 +408,7 @@ Section Script.
                   && match file_json post (dst ++ [SPF]) with Some v => json_same v nsp | None => false end
                   && tree_same_except [src; dst] pre post
                   && follower 0 nid dst nsp true && follower 1 nid dst nsp true && follower 2 nid dst nsp true
-                  && common
+                  && byid_ok nid nsp && common
               end
         end
     end.
@@ -350,32 +416,6 @@ Section Script.
   Definition holds_in (i : input_C04) (outs : list oval) : bool := holds_mask (mkMask false false) i outs.
 
   (* ------------------------------------------------------------------ known defect classes (over the input) *)
-  (* does the handle own a _StatePointDict before the operation *)
-  (* (init, statepoint access, and - since fix 0894ce6 - being pickled or shallow-copied instantiate it) *)
-  Definition has_cell (i : input_C04) : bool :=
-    match i_prov i with PInit => true | _ => i_access i || i_pickle i || Nat.ltb 0 (i_shallow i) end.
-
-  (* what SyncedDict._update is applied to, and with what *)
-  Definition merge_args (i : input_C04) : option (json * json) :=
-    match i_route i with
-    | RAssign sp => Some (if has_cell i then i_old i else JObj [], sp)
-    | RUpdate u ov => if negb ov && update_conflict (i_old i) u then None else Some (i_old i, dict_update (i_old i) u)
-    | _ => None
-    end.
-
-  (* tag 3: _update keeps values that compare == in Python (1 / 1.0 / True) and ignores None over a container *)
-  Definition class_drop (i : input_C04) : bool :=
-    match merge_args i with
-    | Some (ex, nw) =>
-        negb (json_same (snd (upd_root ex nw)) nw) &&
-        match i_route i with
-        | RUpdate u false => match spec_new (i_route i) (i_old i) with
-                             | Some v => negb (json_same (snd (upd_root ex nw)) v) | None => false end
-        | _ => true
-        end
-    | None => false
-    end.
-
   (* tag 3 on the rollback path (fix 5e72814 restores the in-memory data with the same _update): merging the
      file's old state point back into the rejected data keeps values that compare == *)
   Definition class_drop_rollback (i : input_C04) : bool :=
